@@ -4,6 +4,7 @@ package dnsforward
 
 import (
 	"bytes"
+	"context"
 	"encoding/json"
 	"fmt"
 	"math/rand"
@@ -33,7 +34,9 @@ type c01HList struct {
 type c01HistServer struct {
 	mu     sync.Mutex
 	bodies map[string][]string
-	srv    *httptest.Server
+	// cut marks paths whose next transfers break in the middle of the body.
+	cut map[string]bool
+	srv *httptest.Server
 }
 
 func (h *c01HistServer) ServeHTTP(w http.ResponseWriter, r *http.Request) {
@@ -45,7 +48,23 @@ func (h *c01HistServer) ServeHTTP(w http.ResponseWriter, r *http.Request) {
 
 		return
 	}
-	_, _ = w.Write([]byte("! Title: hist\n" + strings.Join(lines, "\n") + "\n"))
+	body := []byte("! Title: hist\n" + strings.Join(lines, "\n") + "\n")
+	h.mu.Lock()
+	cut := h.cut[r.URL.Path]
+	h.mu.Unlock()
+	if cut {
+		if hj, ok := w.(http.Hijacker); ok {
+			if conn, buf, err := hj.Hijack(); err == nil {
+				_, _ = fmt.Fprintf(buf, "HTTP/1.1 200 OK\r\nContent-Type: text/plain\r\nContent-Length: %d\r\n\r\n", len(body))
+				_, _ = buf.Write(body[:len(body)*2/3])
+				_ = buf.Flush()
+				_ = conn.Close()
+
+				return
+			}
+		}
+	}
+	_, _ = w.Write(body)
 }
 
 func (h *c01HistServer) set(path string, lines []string) {
@@ -102,11 +121,14 @@ func TestVerifC01History(t *testing.T) {
 }
 
 func c01RunHistory(rep *verifkit.Report, rng *rand.Rand, hidx int) {
-	ls := &c01HistServer{bodies: map[string][]string{}}
+	ls := &c01HistServer{bodies: map[string][]string{}, cut: map[string]bool{}}
 	ls.srv = httptest.NewServer(ls)
 	defer ls.srv.Close()
 
-	conf := &vkConf{Mode: filtering.BlockingModeDefault, Protection: true, FilteringEnabled: true, HTTP: true}
+	conf := &vkConf{Mode: filtering.BlockingModeDefault, Protection: true, FilteringEnabled: true, HTTP: true,
+		// A client with its own settings and filtering switched off; the
+		// history moves it between addresses.
+		Clients: []vkClient{{Name: "kid", IP: "127.0.0.2", UseOwnSettings: true, FilteringEnabled: false}}}
 	vs, err := vkStart(conf)
 	if err != nil {
 		rep.Inconcl("server start failed: " + err.Error())
@@ -152,7 +174,43 @@ func c01RunHistory(rep *verifkit.Report, rng *rand.Rand, hidx int) {
 
 			return lists[keys[rng.Intn(len(keys))]]
 		}
-		switch k := rng.Intn(12); {
+		switch k := rng.Intn(15); {
+		case k == 12 && len(lists) > 0:
+			// A refresh during which the transfer of one list breaks in the
+			// middle: that list must stay as it was.
+			l := pick()
+			content := randRules()
+			ls.set(l.Path, content)
+			ls.mu.Lock()
+			ls.cut[l.Path] = true
+			ls.mu.Unlock()
+			op = fmt.Sprintf("refresh-with-broken-transfer allow=%v of %s (new content %v)", l.Allow, l.Path, content)
+			st, body = c01HCall(vs, "POST", "/control/filtering/refresh", map[string]any{"whitelist": l.Allow})
+			ls.mu.Lock()
+			delete(ls.cut, l.Path)
+			ls.mu.Unlock()
+			if st == 200 {
+				for _, o := range lists {
+					if o.Allow == l.Allow && o.Enabled && o.Path != l.Path {
+						ls.mu.Lock()
+						o.Stored = ls.bodies[o.Path]
+						ls.mu.Unlock()
+					}
+				}
+			}
+		case k >= 13:
+			// The client is moved to another address (its old address must
+			// stop being treated as the client).
+			newIP := []string{"127.0.0.2", "127.0.0.3", "127.0.0.4"}[rng.Intn(3)]
+			vc := conf.Clients[0]
+			vc.IP = newIP
+			op = fmt.Sprintf("client-update kid ip=%s", newIP)
+			if uerr := vs.St.Update(context.Background(), "kid", vkPersistent(vc)); uerr == nil {
+				st = 200
+				conf.Clients[0].IP = newIP
+			} else {
+				st, body = 400, uerr.Error()
+			}
 		case k < 3 || len(lists) == 0:
 			path := fmt.Sprintf("/l%d.txt", len(lists)+step*10)
 			l := &c01HList{Path: path, Allow: rng.Intn(4) == 0, Enabled: true}
@@ -281,20 +339,25 @@ func c01RunHistory(rep *verifkit.Report, rng *rand.Rand, hidx int) {
 		var wrong map[string]any
 		for {
 			wrong = nil
-			for _, n := range probes {
-				want := c01Decide(env, dns.Fqdn(n), dns.TypeA, "127.0.0.1")
-				vs.Up.take()
-				resp, xerr := vkExchange(vs, "127.0.0.1", false, dns.Fqdn(n), dns.TypeA)
-				calls := vs.Up.take()
-				if xerr != nil || resp == nil {
-					wrong = map[string]any{"probe": n, "error": fmt.Sprint(xerr)}
+			for pi, n := range probes {
+				for _, src := range []string{"127.0.0.1", []string{"127.0.0.2", "127.0.0.3", "127.0.0.4"}[(pi+step)%3]} {
+					want := c01Decide(env, dns.Fqdn(n), dns.TypeA, src)
+					vs.Up.take()
+					resp, xerr := vkExchange(vs, src, false, dns.Fqdn(n), dns.TypeA)
+					calls := vs.Up.take()
+					if xerr != nil || resp == nil {
+						wrong = map[string]any{"probe": n, "src": src, "error": fmt.Sprint(xerr)}
 
-					break
+						break
+					}
+					gotBlocked := len(calls) == 0 && !c01HasMarker(resp)
+					if gotBlocked != want.Block {
+						wrong = map[string]any{"probe": n, "src": src, "client_now_at": conf.Clients[0].IP, "model": want, "observed_blocked": gotBlocked, "upstream_calls": calls, "reply": resp.String()}
+
+						break
+					}
 				}
-				gotBlocked := len(calls) == 0 && !c01HasMarker(resp)
-				if gotBlocked != want.Block {
-					wrong = map[string]any{"probe": n, "model": want, "observed_blocked": gotBlocked, "upstream_calls": calls, "reply": resp.String()}
-
+				if wrong != nil {
 					break
 				}
 			}
